@@ -2,7 +2,7 @@
 from decimal import Decimal
 
 from ..harness import Scenario
-from ..models.aave import SHADOWS, SHAPES_QUICK, SHAPES_THOROUGH, sym_portfolio
+from ..models.aave import warm_views, SHADOWS, SHAPES_QUICK, SHAPES_THOROUGH, sym_portfolio
 from ..models.aave_ops import apply_op, op_targets
 from ..symx import ite, sand, sor, snot, smax, is_sym
 
@@ -50,31 +50,83 @@ def views(ctx):
     ctx.check("total_borrows_value equals sum scaled x borrow index x price", ctx.close(m.total_borrows_value, t["B"], rel=REL))
 
 
+def _views_match(ctx, w, st, when):
+    """the reported risk figures equal the Aave v3 definitions evaluated on the raw state (whatever happened before)"""
+    m = w.market
+    t = w.o_totals(st)
+    items = []
+    hf = m.health_factor
+    if not is_sym(hf) and hf == D("inf"):
+        items.append((f"{when}: health_factor is infinite only without debt", t["B"] == 0))
+    else:
+        items.append((f"{when}: health_factor == threshold-weighted collateral / total debt", ctx.close(hf * t["B"], t["LT"], rel=REL)))
+    if any(c for (_, c) in st["sup"].values()):
+        mx, th = m.max_ltv, m.liquidation_threshold
+
+        def nan(x):
+            return not is_sym(x) and isinstance(x, D) and not x.is_finite()
+
+        # with zero collateral value (a zero-amount supply) the ratios are undefined (the code reports NaN / 0): nothing to compare
+        items.append((f"{when}: max_ltv == ltv-weighted collateral / collateral", sor(t["C"] == 0, False if nan(mx) else ctx.close(mx * t["C"], t["LV"], rel=REL))))
+        items.append((f"{when}: liquidation_threshold == threshold-weighted collateral / collateral", sor(t["C"] == 0, False if nan(th) else ctx.close(th * t["C"], t["LT"], rel=REL))))
+    items.append((f"{when}: total collateral / debt values equal the definitions", sand(ctx.close(m.total_collateral_value, t["C"], rel=REL), ctx.close(m.total_borrows_value, t["B"], rel=REL))))
+    ctx.check_all(items)
+
+
 def limits(ctx):
-    """one limit-bearing operation: soundness on accept, completeness (with margin) on reject, HF>=1 preserved"""
+    """one limit-bearing operation: soundness on accept, completeness (with margin) on reject, HF>=1 preserved; the risk
+    figures reported afterwards equal the definitions; optionally a second borrow in the same bar under the same obligations"""
     p = ctx.p
     w = sym_portfolio(ctx, p["shape"])
-    op, tok = p["op"], p["tok"]
+    if p.get("warm"):
+        warm_views(w.market)
+        w.market.borrows, w.market.supplies  # the derived dict views too
+    ok, label = _limit_step(ctx, w, p["op"], p["tok"], p["tok2"], "")
+    ctx.outcome("accepted" if ok else "rejected:" + label)
+    _views_match(ctx, w, w.raw(), f"after {p['op']} [{'accepted' if ok else 'rejected'}]")
+    if p.get("then"):
+        ok2, label2 = _limit_step(ctx, w, p["then"], p["tok_then"], None, "_2")
+        ctx.outcome("then:" + ("accepted" if ok2 else "rejected:" + label2))
+        _views_match(ctx, w, w.raw(), f"after a second operation ({p['then']}) [{'accepted' if ok2 else 'rejected'}]")
+
+
+def _limit_step(ctx, w, op, tok, tok2, suffix):
     st0 = w.raw()
     t0 = w.o_totals(st0)
-    ok, label, args = apply_op(ctx, w, op, tok, p["tok2"])
+    if suffix:
+        from ..models.nv import _aave_second
+
+        a2 = None
+        try:
+            amt2 = ctx.dec("amt" + suffix, 0, 10**10)
+            a2 = amt2
+            t = w.tok(tok)
+            {"borrow": w.market.borrow, "withdraw": w.market.withdraw}[op](t, amt2)
+            ok, label, args = True, "accepted", dict(amount=amt2)
+        except Exception as e:
+            from ..models.aave_ops import stem
+
+            ok, label, args = False, stem(e), dict(amount=a2)
+    else:
+        ok, label, args = apply_op(ctx, w, op, tok, tok2)
     st1 = w.raw()
     t1 = w.o_totals(st1)
-    ctx.outcome("accepted" if ok else "rejected:" + label)
+    tag = op + (" (second operation in the bar)" if suffix else "")
     debt_after = bool(st1["bor"])
     # the code deliberately clamps scaled residues below 1e-18 to zero (DESIGN 6.2): allow that much value
     dust = D("2e-18") * w.row["li"][tok] * w.price[tok]
     if ok:
         if op == "borrow":
-            ctx.check("borrow accepted => ltv-weighted collateral covers all debt incl. the new one", t1["LV"] >= t1["B"] * (1 - REL))
-            ctx.check("borrow accepted => token is borrowable", w.risk[tok]["borrow"])
-            ctx.check("CANARY borrow leaves debt unchanged", ctx.close(t1["B"], t0["B"], rel=REL))
+            ctx.check(f"{tag} accepted => ltv-weighted collateral covers all debt incl. the new one", t1["LV"] >= t1["B"] * (1 - REL))
+            ctx.check(f"{tag} accepted => token is borrowable", w.risk[tok]["borrow"])
+            if not suffix:
+                ctx.check("CANARY borrow leaves debt unchanged", ctx.close(t1["B"], t0["B"], rel=REL))
         reduces = (op == "withdraw" and st0["sup"][tok][1]) or (op == "change_collateral" and not args["collateral"] and st0["sup"][tok][1])
         if reduces and debt_after:
-            ctx.check(f"{op} accepted => health factor afterwards >= 1", t1["LT"] + dust >= t1["B"] * (1 - REL))
+            ctx.check(f"{tag} accepted => health factor afterwards >= 1", t1["LT"] + dust >= t1["B"] * (1 - REL))
         if debt_after:
             # every accepted user operation from a healthy account leaves it healthy
-            ctx.check(f"{op} accepted from HF>=1 => HF>=1 afterwards", sor(t0["LT"] < t0["B"], t1["LT"] + dust >= t1["B"] * (1 - REL)))
+            ctx.check(f"{tag} accepted from HF>=1 => HF>=1 afterwards", sor(t0["LT"] < t0["B"], t1["LT"] + dust >= t1["B"] * (1 - REL)))
     else:
         amt = args.get("amount")
         if op == "borrow" and amt is not None:
@@ -86,13 +138,13 @@ def limits(ctx):
                 t0["LT"] > t0["B"],
                 (t0["B"] + amt * w.price[tok]) * (1 + MARGIN) <= t0["LV"],
             )
-            ctx.check("borrow inside the limit with margin is accepted", snot(inside))
+            ctx.check(f"{tag} inside the limit with margin is accepted", snot(inside))
         if op == "withdraw" and amt is not None and tok in st0["sup"]:
             held = w.o_supply_amount(st0, tok)
             is_c = st0["sup"][tok][1]
             new_lt = t0["LT"] - (amt * w.price[tok] * w.risk[tok]["lt"] if is_c else 0)
             inside = sand(amt > 0, amt * (1 + MARGIN) <= held, sor(not st0["bor"], new_lt >= t0["B"] * (1 + MARGIN)))
-            ctx.check("withdraw inside the limit with margin is accepted", snot(inside))
+            ctx.check(f"{tag} inside the limit with margin is accepted", snot(inside))
         if op == "change_collateral" and tok in st0["sup"]:
             c = args["collateral"]
             if c:
@@ -102,6 +154,7 @@ def limits(ctx):
                 new_lt = t0["LT"] - (w.o_supply_amount(st0, tok) * w.price[tok] * w.risk[tok]["lt"] if is_c else 0)
                 inside = sor(not st0["bor"], new_lt >= t0["B"] * (1 + MARGIN))
                 ctx.check("disabling collateral inside the limit with margin is accepted", snot(inside))
+    return ok, label
 
 
 def helpers(ctx):
@@ -191,6 +244,13 @@ def scenarios(tier):
                         max_paths=800,
                     )
                 )
+        # two limit-bearing operations in the same bar (the second sees whatever caches the first one left), views read beforehand
+        if sn in ("A", "B") or tier != "quick":
+            debts = [n for n in shape if shape[n][1]] or list(shape)[:1]
+            colls = [n for n in shape if shape[n][0] == "C"]
+            for first, tok1 in [("borrow", debts[0])] + ([("withdraw", colls[0])] if colls else []):
+                for then, tok_then in [("borrow", debts[0])] + ([("withdraw", colls[0])] if colls else []):
+                    out.append(Scenario(f"limits2/{sn}/{first}:{tok1}+{then}:{tok_then}", limits, params=dict(shape=shape, op=first, tok=tok1, tok2=None, then=then, tok_then=tok_then, warm=True), shadows=SHADOWS, entry=(f"AaveV3Market.{first}", f"AaveV3Market.{then}", "health_factor", "max_ltv"), max_paths=1200))
         for tok in shape:
             has_coll = any(s == "C" for (s, _) in shape.values())
             if has_coll:
